@@ -11,6 +11,30 @@ from .model import AnalysisError, Model
 from .report import Ctx
 
 
+def controls(ctx, prop):
+    """Thorough tier: replay the mutation corpus entries of this property (each is one edit on a scratch copy of the
+    current tree): the quick check must report every one of them with the expected rule, and stay silent on the
+    behaviour-preserving ones. A missed control means the check has lost its power: exit 2, never a silent pass."""
+    import concurrent.futures as cf
+    sys.path.insert(0, os.path.join(os.path.dirname(os.path.dirname(os.path.abspath(__file__))), "selftest"))
+    import run as st
+    from mutants import BENIGN, MUTANTS
+    todo = [(m[0], [prop], m[2], m[3], m[4], m[5]) for m in MUTANTS + BENIGN if prop in m[1]]
+    rule = "CONTROL"
+    ctx.rule(rule, what="mutation controls: every seeded edit of this property's corpus is reported, benign edits are not")
+    missed = []
+    with cf.ThreadPoolExecutor(min(16, max(1, len(todo)))) as ex:
+        for name, ok, msg in ex.map(st.run_variant, todo):
+            if not ok and "stale" in msg:
+                ctx.note(f"control {name} skipped: its anchor text is not in the current tree")
+                continue
+            ctx.instance(rule)
+            ctx.ob(rule, "<selftest>", f"control {name}", True, sample="behaved as expected") if ok else missed.append((name, msg))
+    if missed:
+        raise AnalysisError("mutation controls not behaving as expected (the check would miss a known breaking edit or "
+                            "alarm on a benign one): " + "; ".join(f"{n}: {m[:160]}" for n, m in missed))
+
+
 def main(argv=None):
     ap = argparse.ArgumentParser()
     ap.add_argument("prop")
@@ -22,7 +46,13 @@ def main(argv=None):
         mod = importlib.import_module(f"sa.props.{prop}")
         model = Model()
         ctx = Ctx(prop, a.tier, model)
+        if a.tier == "thorough":
+            from . import interp
+            interp.PRECISE_DEFAULT = True       # full path sensitivity (no fact-merging) wherever the state cap allows
+            ctx.note("thorough tier: unmerged (fully path-sensitive) analysis; the property's mutation controls are replayed")
         mod.run(ctx)
+        if a.tier == "thorough" and not ctx.findings_unknown():
+            controls(ctx, prop)
         code = ctx.finish()
     except AnalysisError as e:
         print(f"ANALYSIS-ERROR property={prop}: {e}")
